@@ -25,6 +25,7 @@ KEY_UNIFORM = 'scale-type-uniform-discrete-not-on-wire'
 KEY_METRIC_ORDER = 'studyconfig-metrics-reordered-by-name'
 KEY_TRAILING_BS = 'ns-component-trailing-backslash'
 KEY_NO_PREDICTION = 'earlystop-decision-without-prediction'
+KEY_ENDPOINT_ORDER = 'studyconfig-endpoint-appended-after-metadata'
 
 EPOCH = datetime.datetime(1970, 1, 1, tzinfo=datetime.timezone.utc)
 US = datetime.timedelta(microseconds=1)
@@ -298,7 +299,8 @@ def canon_study(s):
           'metrics': [canon_metric(m) for m in s.metric_information], 'md': canon_md(s.metadata),
           'alg': cps(s.algorithm), 'noise': _NOISE[int(s.observation_noise.value)],
           'auto': s.automated_stopping_config is not None,
-          'cached': s._study_config.HasField('default_stopping_spec')}   # pylint: disable=protected-access
+          'cached': s._study_config.HasField('default_stopping_spec'),   # pylint: disable=protected-access
+          'endpoint': None if s.pythia_endpoint is None else canon_mdval(s.pythia_endpoint)}
 
 
 def canon_pstudy(q):
@@ -661,6 +663,27 @@ class Gen:
               observation_noise=r.choice(list(sc.ObservationNoise)))
     if r.random() < 0.4:
       kw['automated_stopping_config'] = V['sc'].automated_stopping.AutomatedStoppingConfig.default_stopping_spec()
+    if r.random() < 0.4:
+      # pythia_endpoint: a view of the metadata entry ('service',) / PYTHIA_ENDPOINT.  Other entries of that
+      # namespace, an entry under the key itself (same or another value) and later namespaces decide WHERE the
+      # entry lands in the message
+      kw['pythia_endpoint'] = r.choice(['localhost:8888', '', 'é:1', 'host:1'])
+      md = V['common'].Metadata()
+      x = r.random()
+      if x < 0.5:
+        md.ns('service')[r.choice(['a', 'PYTHIA_ENDPOINT_', 'é'])] = r.choice(['1', ''])
+      if 0.3 < x < 0.7:
+        md.ns('service')['PYTHIA_ENDPOINT'] = r.choice([kw['pythia_endpoint'], 'other:2'])
+      old_md = kw['metadata']
+      if r.random() < 0.5:
+        md, old_md = old_md, md
+      for ns in old_md.namespaces():
+        for k, v in old_md.abs_ns(ns).items():
+          md.abs_ns(ns)[k] = v
+      kw['metadata'] = md
+    elif r.random() < 0.15:
+      # no endpoint configured, but the metadata holds the entry: the view shows it
+      kw['metadata'].ns('service')['PYTHIA_ENDPOINT'] = r.choice(['h:1', ''])
     s = sc.StudyConfig(**kw)
     if r.random() < 0.25:
       # an object that came from a proto and was edited afterwards (keeps the original proto)
@@ -791,6 +814,8 @@ def classify(kind, cx, flags):
     keys.append(KEY_UNIFORM)
   if kind == 'study' and metrics_unsorted(cx):
     keys.append(KEY_METRIC_ORDER)
+  if kind == 'study' and not flags.get('endpointMerged', True) and cx.get('endpoint') is not None:
+    keys.append(KEY_ENDPOINT_ORDER)
   if kind == 'esdec' and any(e['pred'] is None for e in cx['decisions']):
     keys.append(KEY_NO_PREDICTION)
   if not flags['readNanos'] and has_frac_secs(cx):
@@ -875,6 +900,16 @@ def identify_flags(c):
          lambda: [tr.Trial(id=1, creation_time=dt_of(10**6), completion_time=dt_of(2 * 10**6), infeasibility_reason='bad')],
          lambda w, b: us_of(b.completion_time) == 2 * 10**6, KEY_INFEASIBLE_TIME,
          lambda w, b, k, n: 'infeasible Trial created at t=1s, completed at t=2s comes back with completion time %s us (end_time only read for SUCCEEDED trials)' % us_of(b.completion_time))
+  # c09_studyConfig_endpoint_order_counterexample: another `service` entry, a later namespace, an endpoint
+
+  def endpoint_witness():
+    w = V['sc'].StudyConfig(pythia_endpoint='host:1')
+    w.metadata.ns('service')['a'] = '1'
+    w.metadata.ns('o')['b'] = '2'
+    return [w]
+  replay('endpointMerged', 'study', endpoint_witness, lambda w, b: ser(w.to_proto()) == ser(b.to_proto()), KEY_ENDPOINT_ORDER,
+         lambda w, b, k, n: 'StudyConfig(pythia_endpoint=host:1) with metadata service/a, o/b: to_proto appends the endpoint entry after ALL metadata (%s), a second conversion writes it inside its namespace (%s): not the identical message' % (
+             [(kv.ns, kv.key) for kv in w.to_proto().metadata], [(kv.ns, kv.key) for kv in b.to_proto().metadata]))
   c.flags.update(flags)
   return flags
 
@@ -911,6 +946,8 @@ class Batch:
         continue
       rec.update(cp=cproto(p), cb=cpy(back), cp2=cproto(p2), same_bytes=(ser(p) == ser(p2)), back=back)
       rec['req'] = {'op': kind, 'cfg': cfg, 'x': cx, 'back': rec['cb']}
+      if kind == 'study':
+        rec['req']['endpointMerged'] = bool(flags.get('endpointMerged', True))
 
   def evaluate(self):
     """Same values through the model (one driver run); tie + property per case."""
